@@ -29,9 +29,11 @@ def gen_program(g, prof):
         if spec["act"] == "started":
             spec["post"] = g.int(0, 3)
             spec["end"] = g.weighted([(50, "return"), (30, "raise"), (20, "block")])
-            if g.chance(20):
+            if g.chance(25):
                 spec["second"] = True
                 spec["gap"] = g.int(0, 2)
+            if g.chance(20):
+                spec["shield_script"] = True
         spec["oncancel"] = g.weighted([(50, "reraise"), (20, "swallow"), (30, "boom")])
         spec["cleanup"] = g.int(0, 3)
         spec["shielded"] = g.chance(70)
